@@ -29,4 +29,7 @@ try:
 finally:
     sh("git checkout -- . && git clean -fdq", "/repo")
     sh("./check --setup", VERIF)
-print(json.dumps(out))
+try:
+    print(json.dumps(out))
+except BrokenPipeError:
+    pass
